@@ -22,6 +22,7 @@ RULE = (
     'non-trivial = integer array with a negative or repeated entry, or an ellipsis followed by >=1 '
     'entry, or >=2 leaves; distinct = distinct canonical recipe JSON.'
     ' Also: structured index values (contiguous range, range with one element repeated and one skipped, sorted, constant); long index arrays (300-9000 entries into 3-3000 pixels, every integer dtype able to hold the pixel numbers, negative entries for signed ones, one hot pixel) judged by gather, np.add.at and bincount: mv, transpose, (P.T@P).reduce() == diag(hit counts), (P@P.T).reduce().'
+    ' Also: runs of 64+ consecutive indices, possibly starting at a negative index and running past zero.'
 )
 ASSUMPTIONS = [
     'index values are in bounds (furax documents numpy semantics only there; JAX clamps silently)',
